@@ -1,20 +1,909 @@
-//! C09 — not implemented yet (stub).
+//! C09 — the collector frees exactly the unreachable objects, exactly once.
+//!
+//! Model-based testing of `boa_gc`'s public API (`Gc`, `GcRefCell`, `WeakGc`, `Ephemeron`,
+//! `WeakMap`, `force_collect`, derived `Trace`) against the graph-reachability model of
+//! `genp::gcops`. A history of operations is executed in lock step on the model and on a real
+//! thread-local heap (every case runs on a fresh thread = a fresh, empty heap). Node payloads carry
+//! an id, two canaries and per-id drop/finalize counters in a thread-local table.
 
 use crate::driver::{CaseOut, Env, Prop, Stream, Tier};
+use crate::genp::gcgen::{self, Alpha, Enumerator, Gen, RandCfg};
+use crate::genp::gcops::{self, Broken, Facts, H, MKey, Model, Obs, Op};
+use boa_gc::{Ephemeron, Finalize, Gc, GcBox, GcRefCell, Trace, WeakGc, WeakMap, force_collect};
+use std::cell::RefCell;
+use std::collections::BTreeMap;
+use std::mem::ManuallyDrop;
+use std::sync::{Mutex, OnceLock};
 
 pub struct C09;
+
+// ---------------------------------------------------------------------------------------
+// the payload
+
+const CANARY_A: u64 = 0xC0FF_EE00_D15E_A5E5;
+const CANARY_B: u64 = 0x5AFE_0B0A_6C09_6C09;
+const POISON: u64 = 0xDEAD_DEAD_DEAD_DEAD;
+
+type NodeGc = Gc<Node>;
+type Eph = Ephemeron<Node, Gc<Node>>;
+type WMap = WeakMap<Node, Gc<Node>>;
+
+#[derive(Trace)]
+#[boa_gc(unsafe_no_drop)]
+struct Node {
+    id: u32,
+    canary_a: u64,
+    edges: GcRefCell<Vec<(u32, NodeGc)>>,
+    weaks: GcRefCell<Vec<(u32, WeakGc<Node>)>>,
+    ephs: GcRefCell<Vec<(u32, u32, Eph)>>,
+    map: GcRefCell<Option<WMap>>,
+    canary_b: u64,
+}
+
+impl Node {
+    fn new(id: u32) -> Self {
+        Self {
+            id,
+            canary_a: CANARY_A ^ u64::from(id),
+            edges: GcRefCell::new(vec![]),
+            weaks: GcRefCell::new(vec![]),
+            ephs: GcRefCell::new(vec![]),
+            map: GcRefCell::new(None),
+            canary_b: CANARY_B ^ u64::from(id),
+        }
+    }
+    fn intact(&self) -> bool {
+        self.id < gcops::MAX_ID && self.canary_a == CANARY_A ^ u64::from(self.id) && self.canary_b == CANARY_B ^ u64::from(self.id)
+    }
+}
+
+#[derive(Default)]
+struct Table {
+    fin: Vec<u32>,
+    dropped: Vec<u32>,
+    bad: Vec<String>,
+    armed: BTreeMap<u32, WeakGc<Node>>,
+    resurrected: Vec<(u32, NodeGc)>,
+    spent: Vec<WeakGc<Node>>,
+}
+
+thread_local!(static TAB: RefCell<Table> = RefCell::new(Table::default()));
+
+fn bump(v: &mut Vec<u32>, id: u32) {
+    let i = id as usize;
+    if i >= gcops::MAX_ID as usize {
+        return;
+    }
+    if v.len() <= i {
+        v.resize(i + 1, 0);
+    }
+    v[i] += 1;
+}
+
+impl Finalize for Node {
+    fn finalize(&self) {
+        let _ = TAB.try_with(|t| {
+            let Ok(mut t) = t.try_borrow_mut() else { return };
+            bump(&mut t.fin, self.id);
+            if !self.intact() {
+                t.bad.push(format!("canary of n{} broken at finalize", self.id));
+            }
+            if let Some(w) = t.armed.remove(&self.id) {
+                // resurrection: the finalizer hands a new strong handle to the host
+                if let Some(g) = w.upgrade() {
+                    t.resurrected.push((self.id, g));
+                }
+                // the weak handle itself is released by the host after the collect
+                t.spent.push(w);
+            }
+        });
+    }
+}
+
+impl Drop for Node {
+    fn drop(&mut self) {
+        let ok = self.intact();
+        let id = self.id;
+        let _ = TAB.try_with(|t| {
+            let Ok(mut t) = t.try_borrow_mut() else { return };
+            bump(&mut t.dropped, id);
+            if !ok {
+                t.bad.push(format!("canary of n{id} broken at drop"));
+            }
+        });
+        self.canary_a = POISON;
+        self.canary_b = POISON;
+    }
+}
+
+// ---------------------------------------------------------------------------------------
+// the real side
+
+#[derive(Default)]
+struct World {
+    roots: Vec<(u32, NodeGc)>,
+    weaks: Vec<(u32, WeakGc<Node>)>,
+    ephs: Vec<(u32, u32, Eph)>,
+    map: Option<WMap>,
+}
+
+type Fail = (String, String);
+
+fn desync(what: &str) -> Fail {
+    (format!("harness-desync: {what}"), "the real side could not perform an operation the model considers applicable".into())
+}
+
+impl World {
+    fn root(&self, n: u32) -> Result<NodeGc, Fail> {
+        self.roots.iter().find(|r| r.0 == n).map(|r| r.1.clone()).ok_or_else(|| desync("no root handle"))
+    }
+    fn with_edges<R>(&mut self, h: H, f: impl FnOnce(&mut Vec<(u32, NodeGc)>) -> R) -> Result<R, Fail> {
+        Ok(match h {
+            H::Host => f(&mut self.roots),
+            H::Node(n) => {
+                let g = self.root(n)?;
+                let mut b = g.edges.borrow_mut();
+                f(&mut b)
+            }
+        })
+    }
+    fn with_weaks<R>(&mut self, h: H, f: impl FnOnce(&mut Vec<(u32, WeakGc<Node>)>) -> R) -> Result<R, Fail> {
+        Ok(match h {
+            H::Host => f(&mut self.weaks),
+            H::Node(n) => {
+                let g = self.root(n)?;
+                let mut b = g.weaks.borrow_mut();
+                f(&mut b)
+            }
+        })
+    }
+    fn with_ephs<R>(&mut self, h: H, f: impl FnOnce(&mut Vec<(u32, u32, Eph)>) -> R) -> Result<R, Fail> {
+        Ok(match h {
+            H::Host => f(&mut self.ephs),
+            H::Node(n) => {
+                let g = self.root(n)?;
+                let mut b = g.ephs.borrow_mut();
+                f(&mut b)
+            }
+        })
+    }
+    fn with_map<R>(&mut self, h: H, f: impl FnOnce(&mut Option<WMap>) -> R) -> Result<R, Fail> {
+        Ok(match h {
+            H::Host => f(&mut self.map),
+            H::Node(n) => {
+                let g = self.root(n)?;
+                let mut b = g.map.borrow_mut();
+                f(&mut b)
+            }
+        })
+    }
+
+    fn apply(&mut self, op: Op) -> Result<Obs, Fail> {
+        match op {
+            Op::Alloc(n) => {
+                self.roots.push((n, Gc::new(Node::new(n))));
+                Ok(Obs::Unit)
+            }
+            Op::Link(h, t) => {
+                let g = self.root(t)?;
+                self.with_edges(h, |v| v.push((t, g)))?;
+                Ok(Obs::Unit)
+            }
+            Op::Unlink(h, t) => {
+                let removed = self.with_edges(h, |v| v.iter().rposition(|x| x.0 == t).map(|i| v.remove(i)))?;
+                removed.map(|_| Obs::Unit).ok_or_else(|| desync("no such edge"))
+            }
+            Op::Load(a, t) => {
+                let g = self.with_edges(H::Node(a), |v| v.iter().find(|x| x.0 == t).map(|x| x.1.clone()))?;
+                self.roots.push((t, g.ok_or_else(|| desync("no such edge to load"))?));
+                Ok(Obs::Unit)
+            }
+            Op::Weak(h, t) => {
+                let g = self.root(t)?;
+                let w = WeakGc::new(&g);
+                self.with_weaks(h, |v| v.push((t, w)))?;
+                Ok(Obs::Unit)
+            }
+            Op::ShareWeak(f, to, t) => {
+                let w = self.with_weaks(f, |v| v.iter().find(|x| x.0 == t).map(|x| x.1.clone()))?;
+                let w = w.ok_or_else(|| desync("no weak to share"))?;
+                self.with_weaks(to, |v| v.push((t, w)))?;
+                Ok(Obs::Unit)
+            }
+            Op::DropWeak(h, t) => {
+                let removed = self.with_weaks(h, |v| v.iter().position(|x| x.0 == t).map(|i| v.remove(i)))?;
+                removed.map(|_| Obs::Unit).ok_or_else(|| desync("no weak to drop"))
+            }
+            Op::Upgrade(h, t, keep) => {
+                let up = self.with_weaks(h, |v| v.iter().find(|x| x.0 == t).map(|x| x.1.upgrade()))?;
+                let up = up.ok_or_else(|| desync("no weak to upgrade"))?;
+                Ok(Obs::Target(match up {
+                    None => None,
+                    Some(g) => {
+                        let id = g.id;
+                        if keep {
+                            self.roots.push((id, g));
+                        }
+                        Some(id)
+                    }
+                }))
+            }
+            Op::Eph(h, k, v) => {
+                let (kg, vg) = (self.root(k)?, self.root(v)?);
+                let e = Ephemeron::new(&kg, vg);
+                self.with_ephs(h, |l| l.push((k, v, e)))?;
+                Ok(Obs::Unit)
+            }
+            Op::DropEph(h, k, v) => {
+                let removed = self.with_ephs(h, |l| l.iter().position(|x| x.0 == k && x.1 == v).map(|i| l.remove(i)))?;
+                removed.map(|_| Obs::Unit).ok_or_else(|| desync("no ephemeron to drop"))
+            }
+            Op::EphVal(h, k, v, keep) => {
+                let val = self.with_ephs(h, |l| l.iter().find(|x| x.0 == k && x.1 == v).map(|x| x.2.value().map(|r| (*r).clone())))?;
+                let val = val.ok_or_else(|| desync("no ephemeron to read"))?;
+                Ok(Obs::Target(match val {
+                    None => None,
+                    Some(g) => {
+                        let id = g.id;
+                        if keep {
+                            self.roots.push((id, g));
+                        }
+                        Some(id)
+                    }
+                }))
+            }
+            Op::Map(h) => {
+                self.with_map(h, |m| *m = Some(WeakMap::new()))?;
+                Ok(Obs::Unit)
+            }
+            Op::DropMap(h) => {
+                let old = self.with_map(h, Option::take)?;
+                old.map(|_| Obs::Unit).ok_or_else(|| desync("no map to drop"))
+            }
+            Op::MapIns(h, k, v) => {
+                let (kg, vg) = (self.root(k)?, self.root(v)?);
+                let done = self.with_map(h, |m| m.as_mut().map(|m| m.insert(&kg, vg)))?;
+                done.map(|()| Obs::Unit).ok_or_else(|| desync("no map to insert into"))
+            }
+            Op::MapRem(h, k) => {
+                let kg = self.root(k)?;
+                let r = self.with_map(h, |m| m.as_mut().map(|m| m.remove(&kg)))?;
+                r.map(Obs::Bool).ok_or_else(|| desync("no map to remove from"))
+            }
+            Op::MapGet(h, k, keep) => {
+                let kg = self.root(k)?;
+                let r = self.with_map(h, |m| m.as_ref().map(|m| map_get(m, &kg)))?;
+                let r = r.ok_or_else(|| desync("no map to read"))??;
+                Ok(Obs::Target(match r {
+                    None => None,
+                    Some(g) => {
+                        let id = g.id;
+                        if keep {
+                            self.roots.push((id, g));
+                        }
+                        Some(id)
+                    }
+                }))
+            }
+            Op::Arm(n) => {
+                let g = self.root(n)?;
+                let w = WeakGc::new(&g);
+                TAB.with(|t| t.borrow_mut().armed.insert(n, w));
+                Ok(Obs::Unit)
+            }
+            Op::Disarm(n) => {
+                let w = TAB.with(|t| t.borrow_mut().armed.remove(&n));
+                w.map(|_| Obs::Unit).ok_or_else(|| desync("not armed"))
+            }
+            Op::Collect => {
+                force_collect();
+                let (res, spent) = TAB.with(|t| {
+                    let mut t = t.borrow_mut();
+                    (std::mem::take(&mut t.resurrected), std::mem::take(&mut t.spent))
+                });
+                self.roots.extend(res);
+                drop(spent);
+                Ok(Obs::Unit)
+            }
+        }
+    }
+}
+
+/// `WeakMap::get` + `Ephemeron::value`: `Ok(None)` = no entry; an entry without a value while
+/// the caller holds the key is a violation.
+fn map_get(m: &WMap, k: &NodeGc) -> Result<Option<NodeGc>, Fail> {
+    let has = m.contains_key(k);
+    match m.get(k) {
+        None => {
+            if has {
+                return Err(("weakmap: contains_key and get disagree".into(), "contains_key = true, get = None".into()));
+            }
+            Ok(None)
+        }
+        Some(e) => match e.value() {
+            Some(v) => Ok(Some((*v).clone())),
+            None => Err(("weakmap: entry of a live key has no value".into(), "get(key) returned an ephemeron whose value() is None while the key is held".into())),
+        },
+    }
+}
+
+// ---------------------------------------------------------------------------------------
+// sizes of the boxes (measured once per process on a scratch thread)
+
+#[derive(Clone, Copy, Debug)]
+struct Sizes {
+    node: usize,
+    weak: usize,
+    eph: usize,
+    mapbox: usize,
+    wbox: usize,
+}
+
+fn sizes() -> Result<Sizes, String> {
+    static S: OnceLock<Result<Sizes, String>> = OnceLock::new();
+    S.get_or_init(|| {
+        std::thread::spawn(|| {
+            let b = || boa_gc::verif::stats().bytes;
+            let b0 = b();
+            let n = Gc::new(Node::new(0));
+            let b1 = b();
+            let w = WeakGc::new(&n);
+            let b2 = b();
+            let e = Ephemeron::new(&n, n.clone());
+            let b3 = b();
+            let m: WMap = WeakMap::new();
+            let b4 = b();
+            drop(m);
+            force_collect();
+            let b5 = b();
+            force_collect();
+            let b6 = b();
+            drop((w, e));
+            drop(n);
+            force_collect();
+            force_collect();
+            let s = Sizes { node: b1 - b0, weak: b2 - b1, eph: b3 - b2, mapbox: b4 - b5, wbox: b5 - b6 };
+            if b0 != 0 || b() != 0 || s.node != size_of::<GcBox<Node>>() || s.mapbox + s.wbox != b4 - b3 || s.weak == 0 || s.eph == 0 || s.wbox == 0 {
+                return Err(format!("size calibration inconsistent: {s:?} b0={b0} b3={b3} b4={b4} end={}", b()));
+            }
+            Ok(s)
+        })
+        .join()
+        .unwrap_or_else(|_| Err("size calibration panicked".into()))
+    })
+    .clone()
+}
+
+// ---------------------------------------------------------------------------------------
+// comparison of the two sides
+
+fn check_stats(m: &Model, sz: &Sizes) -> Result<(), Fail> {
+    let s = boa_gc::verif::stats();
+    let exp_strongs = m.n_nodes + m.n_maps;
+    let exp_eph = m.n_eph.iter().sum::<u64>();
+    let exp_bytes = m.n_nodes as usize * sz.node + m.n_eph[0] as usize * sz.weak + m.n_eph[1] as usize * sz.eph + m.n_eph[2] as usize * sz.wbox + m.n_maps as usize * sz.mapbox;
+    let pairs: [(&str, u64, u64); 6] = [
+        ("strong-boxes", exp_strongs, s.strongs as u64),
+        ("ephemeron-boxes", exp_eph, s.ephemerons as u64),
+        ("weak-map-boxes", m.n_maps, s.weak_maps as u64),
+        ("bytes", exp_bytes as u64, s.bytes as u64),
+        ("collections", m.collections, s.collections as u64),
+        ("allocations", m.allocs, s.allocations),
+    ];
+    for (name, e, a) in pairs {
+        if e != a {
+            let dir = if a > e { "more" } else { "fewer" };
+            return Err((format!("stats: {dir} {name} than the model"), format!("{name}: model {e}, boa_gc::verif::stats() {a}; full stats {s:?}; model nodes={} ephs={:?} maps={}", m.n_nodes, m.n_eph, m.n_maps)));
+        }
+    }
+    Ok(())
+}
+
+fn check_counters(m: &Model) -> Result<(), Fail> {
+    TAB.with(|t| {
+        let t = t.borrow();
+        if let Some(b) = t.bad.first() {
+            return Err(("canary broken".to_string(), b.clone()));
+        }
+        let get = |v: &Vec<u32>, i: usize| v.get(i).copied().unwrap_or(0);
+        for (i, n) in m.nodes.iter().enumerate() {
+            let Some(n) = n else { continue };
+            let (fin, dropped) = (get(&t.fin, i), get(&t.dropped, i));
+            let detail = format!("n{i}: model alive={} finalized={} dropped={}; boa finalized={fin} dropped={dropped}", n.alive, n.fin, n.dropped);
+            if dropped > n.dropped {
+                let sig = if n.alive { "freed while reachable" } else { "dropped more than once" };
+                return Err((sig.to_string(), detail));
+            }
+            if dropped < n.dropped {
+                return Err(("unreachable object not freed".to_string(), detail));
+            }
+            if fin != n.fin {
+                let sig = if fin > n.fin {
+                    if n.alive { "finalized while reachable" } else { "finalized more often than the model" }
+                } else {
+                    "finalized less often than the model"
+                };
+                return Err((sig.to_string(), detail));
+            }
+        }
+        Ok(())
+    })
+}
+
+struct Walk<'a> {
+    m: &'a Model,
+    visited: BTreeMap<u32, NodeGc>,
+    queue: Vec<(u32, NodeGc)>,
+    /// (model map id, owner: None = the host, Some = the node holding the map)
+    maps: Vec<(usize, Option<NodeGc>)>,
+}
+
+impl Walk<'_> {
+    fn weak_list(&mut self, who: &str, real: &[(u32, WeakGc<Node>)], model: &[usize]) -> Result<(), Fail> {
+        let exp: Vec<u32> = model.iter().map(|&e| if let MKey::Node(t) = self.m.ephs[e].key { t } else { u32::MAX }).collect();
+        let act: Vec<u32> = real.iter().map(|x| x.0).collect();
+        if exp != act {
+            return Err(desync(&format!("weak list of {who} differs: model {exp:?}, real {act:?}")));
+        }
+        for (x, &e) in real.iter().zip(model) {
+            let cleared = self.m.ephs[e].cleared;
+            let up = x.1.upgrade();
+            if x.1.is_upgradable() != up.is_some() {
+                return Err(("weak: is_upgradable and upgrade disagree".into(), format!("weak {who} -> n{}", x.0)));
+            }
+            match up {
+                None if !cleared => {
+                    return Err(("weak: upgrade is None but the target is alive".into(), format!("weak {who} -> n{}: the model says the target is still allocated", x.0)));
+                }
+                Some(_) if cleared => {
+                    return Err(("weak: upgrade is Some but the target is dead".into(), format!("weak {who} -> n{}: the model says the target was unreachable at a collect", x.0)));
+                }
+                Some(g) => self.queue.push((x.0, g)),
+                None => {}
+            }
+        }
+        Ok(())
+    }
+    fn eph_list(&mut self, who: &str, real: &[(u32, u32, Eph)], model: &[usize]) -> Result<(), Fail> {
+        let exp: Vec<(u32, u32)> = model.iter().map(|&e| (if let MKey::Node(t) = self.m.ephs[e].key { t } else { u32::MAX }, self.m.ephs[e].val.unwrap_or(u32::MAX))).collect();
+        let act: Vec<(u32, u32)> = real.iter().map(|x| (x.0, x.1)).collect();
+        if exp != act {
+            return Err(desync(&format!("ephemeron list of {who} differs: model {exp:?}, real {act:?}")));
+        }
+        for (x, &e) in real.iter().zip(model) {
+            let cleared = self.m.ephs[e].cleared;
+            let val = x.2.value().map(|r| (*r).clone());
+            let key = x.2.key();
+            if x.2.has_value() != val.is_some() || key.is_some() != val.is_some() {
+                return Err(("ephemeron: key/value/has_value disagree".into(), format!("ephemeron {who} (n{} -> n{})", x.0, x.1)));
+            }
+            match (val, key) {
+                (None, _) if !cleared => {
+                    return Err(("ephemeron: value is None but the key is alive".into(), format!("ephemeron {who} (n{} -> n{})", x.0, x.1)));
+                }
+                (Some(_), _) if cleared => {
+                    return Err(("ephemeron: value readable but the key is dead".into(), format!("ephemeron {who} (n{} -> n{})", x.0, x.1)));
+                }
+                (Some(v), Some(k)) => {
+                    self.queue.push((x.1, v));
+                    self.queue.push((x.0, k));
+                }
+                _ => {}
+            }
+        }
+        Ok(())
+    }
+    fn edge_list(&mut self, who: &str, real: &[(u32, NodeGc)], model: &[u32]) -> Result<(), Fail> {
+        let mut act: Vec<u32> = real.iter().map(|x| x.0).collect();
+        let mut model = model.to_vec();
+        act.sort_unstable();
+        model.sort_unstable();
+        if act != model {
+            return Err(desync(&format!("edge list of {who} differs: model {model:?}, real {act:?}")));
+        }
+        for x in real {
+            self.queue.push((x.0, x.1.clone()));
+        }
+        Ok(())
+    }
+    fn map_of(&mut self, who: &str, owner: Option<NodeGc>, real_has: bool, model: Option<usize>) -> Result<(), Fail> {
+        match (real_has, model) {
+            (false, None) => Ok(()),
+            (true, Some(mid)) => {
+                if !self.maps.iter().any(|x| x.0 == mid) {
+                    self.maps.push((mid, owner));
+                }
+                Ok(())
+            }
+            _ => Err(desync(&format!("map of {who} differs"))),
+        }
+    }
+    fn drain(&mut self) -> Result<(), Fail> {
+        while let Some((id, g)) = self.queue.pop() {
+            if self.visited.contains_key(&id) {
+                if !Gc::ptr_eq(&g, &self.visited[&id]) {
+                    return Err(("two different allocations for one id".into(), format!("n{id}")));
+                }
+                continue;
+            }
+            if !self.m.alive(id) {
+                return Err(("handle to an object the model has freed".into(), format!("n{id} is reachable on the real heap")));
+            }
+            if !g.intact() || g.id != id {
+                return Err(("canary broken".into(), format!("n{id}: id field {} canaries {:x}/{:x}", g.id, g.canary_a, g.canary_b)));
+            }
+            let mn = self.m.node(id).expect("alive");
+            let who = format!("n{id}");
+            self.edge_list(&who, &g.edges.borrow(), &mn.h.edges)?;
+            self.weak_list(&who, &g.weaks.borrow(), &mn.h.weaks)?;
+            self.eph_list(&who, &g.ephs.borrow(), &mn.h.ephs)?;
+            let has_map = g.map.borrow().is_some();
+            self.map_of(&who, Some(g.clone()), has_map, mn.h.map)?;
+            self.visited.insert(id, g);
+        }
+        Ok(())
+    }
+}
+
+/// Walk everything reachable from the host on the real heap, performing every observation
+/// (upgrade, ephemeron value, weak-map get) and comparing with the model.
+fn deep_check(w: &World, m: &Model) -> Result<(), Fail> {
+    let mut wk = Walk { m, visited: BTreeMap::new(), queue: vec![], maps: vec![] };
+    wk.edge_list("host", &w.roots, &m.host.edges)?;
+    wk.weak_list("host", &w.weaks, &m.host.weaks)?;
+    wk.eph_list("host", &w.ephs, &m.host.ephs)?;
+    wk.map_of("host", None, w.map.is_some(), m.host.map)?;
+    loop {
+        wk.drain()?;
+        // weak maps: entries are only reachable through keys we hold
+        let mut progressed = false;
+        for i in 0..wk.maps.len() {
+            let (mid, owner) = (wk.maps[i].0, wk.maps[i].1.clone());
+            let keys: Vec<(u32, NodeGc)> = wk.visited.iter().map(|(k, v)| (*k, v.clone())).collect();
+            for (k, kg) in keys {
+                let exp = m.find_entry(mid, k).and_then(|j| m.ephs[m.maps[mid].entries[j]].val);
+                let act = match &owner {
+                    None => map_get(w.map.as_ref().ok_or_else(|| desync("host map vanished"))?, &kg)?,
+                    Some(o) => map_get(o.map.borrow().as_ref().ok_or_else(|| desync("node map vanished"))?, &kg)?,
+                };
+                match (exp, act) {
+                    (None, None) => {}
+                    (Some(v), Some(g)) => {
+                        if !wk.visited.contains_key(&v) {
+                            wk.queue.push((v, g));
+                            progressed = true;
+                        } else if !Gc::ptr_eq(&g, &wk.visited[&v]) {
+                            return Err(("weakmap: wrong value".into(), format!("map#{mid}[n{k}] should be n{v}")));
+                        }
+                    }
+                    (Some(v), None) => {
+                        return Err(("weakmap: entry of a live key is gone".into(), format!("map#{mid}[n{k}] should be n{v}, get returned None")));
+                    }
+                    (None, Some(g)) => {
+                        return Err(("weakmap: unexpected entry".into(), format!("map#{mid}[n{k}] should be absent, get returned n{}", g.id)));
+                    }
+                }
+            }
+        }
+        if !progressed && wk.queue.is_empty() {
+            break;
+        }
+    }
+    for (i, n) in m.nodes.iter().enumerate() {
+        if n.as_ref().is_some_and(|n| n.alive) && !wk.visited.contains_key(&(i as u32)) {
+            return Err(("model-live object not found on the real heap".into(), format!("n{i} is alive in the model but no path of real handles leads to it")));
+        }
+    }
+    // armed devices must still upgrade (they are host-held weak handles to rooted nodes)
+    Ok(())
+}
+
+// ---------------------------------------------------------------------------------------
+// running one history
+
+pub struct Outcome {
+    verdict: Result<(), Fail>,
+    facts: Facts,
+}
+
+fn exec(ops: &[Op], broken: Broken, sz: &Sizes) -> Outcome {
+    let mut m = Model::new();
+    m.broken = broken;
+    let mut w = ManuallyDrop::new(World::default());
+    let r = exec_inner(ops, &mut m, &mut w, sz);
+    // the labels and the non-trivial rule describe the history, not the teardown
+    let facts = m.facts.clone();
+    let verdict = match r {
+        Ok(()) => {
+            // teardown: the host lets go of everything; three collects must empty the heap
+            m.teardown();
+            // SAFETY: `w` is not used afterwards.
+            unsafe { ManuallyDrop::drop(&mut w) };
+            TAB.with(|t| {
+                let mut t = t.borrow_mut();
+                t.armed.clear();
+                t.spent.clear();
+                t.resurrected.clear();
+            });
+            let mut v = Ok(());
+            for _ in 0..3 {
+                force_collect();
+                m.collect();
+                v = check_counters(&m).and_then(|()| check_stats(&m, sz));
+                if v.is_err() {
+                    break;
+                }
+            }
+            v.and_then(|()| {
+                let s = boa_gc::verif::stats();
+                if s.strongs + s.ephemerons + s.weak_maps + s.bytes != 0 {
+                    return Err(("heap not empty after dropping every handle".into(), format!("{s:?}")));
+                }
+                Ok(())
+            })
+            .map_err(|(s, d)| (format!("teardown: {s}"), d))
+        }
+        Err(e) => Err(e),
+    };
+    let verdict = verdict.map_err(|(s, d)| if facts.resurrect_non_isolated { (format!("after-resurrect-non-isolated: {s}"), d) } else { (s, d) });
+    Outcome { verdict, facts }
+}
+
+fn exec_inner(ops: &[Op], m: &mut Model, w: &mut World, sz: &Sizes) -> Result<(), Fail> {
+    let s0 = boa_gc::verif::stats();
+    if s0.strongs + s0.ephemerons + s0.weak_maps + s0.bytes != 0 {
+        return Err(("baseline: the heap is not empty at the start of the case".into(), format!("{s0:?}")));
+    }
+    // the counters of the heap are cumulative over the cases run on this thread
+    m.collections = s0.collections as u64;
+    m.allocs = s0.allocations;
+    TAB.with(|t| *t.borrow_mut() = Table::default());
+    for (i, &op) in ops.iter().enumerate() {
+        let Some(exp) = m.apply(op) else { continue };
+        let at = |(s, d): Fail| (s, format!("at op #{i} `{}`: {d}", gcops::render_op(op)));
+        let act = w.apply(op).map_err(at)?;
+        if act != exp {
+            let sig = match (exp, act) {
+                (Obs::Target(Some(_)), Obs::Target(None)) => match op {
+                    Op::Upgrade(..) => "weak: upgrade is None but the target is alive",
+                    Op::EphVal(..) => "ephemeron: value is None but the key is alive",
+                    _ => "weakmap: entry of a live key is gone",
+                },
+                (Obs::Target(None), Obs::Target(Some(_))) => match op {
+                    Op::Upgrade(..) => "weak: upgrade is Some but the target is dead",
+                    Op::EphVal(..) => "ephemeron: value readable but the key is dead",
+                    _ => "weakmap: unexpected entry",
+                },
+                _ => "observation differs",
+            };
+            return Err(at((sig.to_string(), format!("model {exp:?}, boa {act:?}"))));
+        }
+        if op == Op::Collect {
+            check_counters(m).map_err(at)?;
+            deep_check(w, m).map_err(at)?;
+        }
+        check_stats(m, sz).map_err(at)?;
+    }
+    Ok(())
+}
+
+/// What the case thread does after `exec`: handles that may dangle must never be dropped.
+fn forget_table() {
+    let _ = TAB.try_with(|t| {
+        if let Ok(mut t) = t.try_borrow_mut() {
+            let t = std::mem::take(&mut *t);
+            std::mem::forget(t.armed);
+            std::mem::forget(t.resurrected);
+            std::mem::forget(t.spent);
+        }
+    });
+}
+
+fn case_thread_body(ops: &[Op], broken: Broken, sz: &Sizes) -> Outcome {
+    let r = std::panic::catch_unwind(std::panic::AssertUnwindSafe(|| exec(ops, broken, sz)));
+    match r {
+        Ok(o) => {
+            if o.verdict.is_err() {
+                forget_table();
+            }
+            o
+        }
+        Err(_) => {
+            forget_table();
+            let desc = crate::run::take_last_panic().unwrap_or_else(|| "unknown panic".into());
+            // recompute the facts on the model alone for the signature prefix
+            let mut m = Model::new();
+            for &op in ops {
+                m.apply(op);
+            }
+            let sig = format!("panic: {}", crate::run::panic_signature(&desc));
+            let sig = if m.facts.resurrect_non_isolated { format!("after-resurrect-non-isolated: {sig}") } else { sig };
+            Outcome { verdict: Err((sig, desc)), facts: m.facts }
+        }
+    }
+}
+
+/// Run a history. Every case starts from an empty thread-local heap.
+///
+/// Fast path (generated cases): the case runs on the calling thread; a passing case has verified
+/// that its teardown emptied the heap, and the next case re-checks that baseline. After the first
+/// failing or panicking case the calling thread's heap is not trusted any more, and from then on
+/// (and always when `isolate` is set: replays, known-finding reproducers) every case runs on a
+/// thread of its own = a brand-new heap that is dumped when the thread ends.
+pub fn run_history(ops: &[Op], broken: Broken, isolate: bool) -> Outcome {
+    use std::sync::atomic::{AtomicBool, Ordering};
+    static DIRTY: AtomicBool = AtomicBool::new(false);
+    crate::run::install_panic_hook();
+    let fail = |sig: &str, d: String| Outcome { verdict: Err((sig.to_string(), d)), facts: Facts::default() };
+    let sz = match sizes() {
+        Ok(s) => s,
+        Err(e) => return fail("baseline: size calibration failed", e),
+    };
+    if !isolate && !DIRTY.load(Ordering::Relaxed) {
+        let o = case_thread_body(ops, broken, &sz);
+        if o.verdict.is_err() {
+            DIRTY.store(true, Ordering::Relaxed);
+        }
+        return o;
+    }
+    let ops: Vec<Op> = ops.to_vec();
+    let h = std::thread::Builder::new().name("c09-case".into()).spawn(move || case_thread_body(&ops, broken, &sz));
+    match h.map(std::thread::JoinHandle::join) {
+        Ok(Ok(o)) => o,
+        Ok(Err(_)) => fail("panic: outside the case", "the case thread panicked outside catch_unwind".into()),
+        Err(e) => fail("baseline: cannot spawn a thread", e.to_string()),
+    }
+}
+
+fn labels_of(f: &Facts, excluded: u32) -> Vec<&'static str> {
+    let mut l = vec![];
+    let mut add = |c: bool, s: &'static str| {
+        if c {
+            l.push(s);
+        }
+    };
+    add(f.nontrivial_collects > 0, "nontrivial");
+    add(f.freed_nodes > 0, "freed-some");
+    add(f.heap_only_survivor, "heap-only-survivor");
+    add(f.cycle, "cycle");
+    add(f.self_link, "self-link");
+    add(f.eph_key_from_value, "eph-key-reachable-only-from-value");
+    add(f.weakmap_entry, "weakmap-entry");
+    add(f.weakmap_entry_expired, "weakmap-entry-expired");
+    add(f.resurrection, "resurrection");
+    add(f.zombie_eph_freed, "unreferenced-ephemeron-box-freed");
+    add(f.weak_cleared, "weak-or-ephemeron-cleared");
+    add(f.eph_fixpoint_rounds >= 2, "eph-fixpoint>=2-rounds");
+    add(f.shared_weak, "shared-weak-box");
+    add(f.collects >= 5, "collects>=5");
+    add(f.max_nodes >= 20, "nodes>=20");
+    add(f.max_nodes >= 100, "nodes>=100");
+    add(f.skipped_ops > 0, "some-ops-not-applicable");
+    add(excluded > 0, "excluded-resurrect-non-isolated");
+    l
+}
+
+fn outcome_to_case(rendered: String, o: Outcome, excluded: u32) -> CaseOut {
+    let labels = labels_of(&o.facts, excluded);
+    match o.verdict {
+        Ok(()) => CaseOut::pass(rendered, o.facts.nontrivial_collects > 0).with_labels(labels),
+        Err((sig, detail)) => CaseOut::fail(rendered, sig, detail).with_labels(labels),
+    }
+}
+
+// ---------------------------------------------------------------------------------------
+// streams
+
+#[derive(Clone, Copy)]
+struct Exh {
+    name: &'static str,
+    alpha: Alpha,
+    prefix: &'static [Op],
+    quick: u8,
+    thorough: u8,
+}
+
+/// seed graph of the stream exhaustive-seeded: root -> n0 -> n1 -> n2, only n0 has a root handle
+const SEED_CHAIN: [Op; 7] = [Op::Alloc(0), Op::Alloc(1), Op::Alloc(2), Op::Link(H::Node(0), 1), Op::Link(H::Node(1), 2), Op::Unlink(H::Host, 1), Op::Unlink(H::Host, 2)];
+
+const EXH: [Exh; 4] = [
+    // number of histories: FULL 79_005 / 2_623_777, STRONG 163_501 / 3_082_751, EPH 25_342 / 684_168
+    Exh { name: "exhaustive-small", alpha: Alpha::FULL, prefix: &[], quick: 5, thorough: 6 },
+    Exh { name: "exhaustive-strong", alpha: Alpha::STRONG, prefix: &[], quick: 6, thorough: 7 },
+    Exh { name: "exhaustive-eph", alpha: Alpha::EPH, prefix: &[], quick: 5, thorough: 6 },
+    Exh { name: "exhaustive-seeded", alpha: Alpha::SEEDED, prefix: &SEED_CHAIN, quick: 4, thorough: 5 },
+];
+
+fn enumerator(name: &str, tier: Tier) -> Option<&'static Mutex<Enumerator>> {
+    static E: OnceLock<Mutex<Vec<(String, &'static Mutex<Enumerator>)>>> = OnceLock::new();
+    let x = EXH.iter().find(|x| x.name == name)?;
+    let depth = if tier == Tier::Quick { x.quick } else { x.thorough };
+    let key = format!("{name}/{depth}");
+    let mut reg = E.get_or_init(|| Mutex::new(vec![])).lock().ok()?;
+    if let Some(e) = reg.iter().find(|e| e.0 == key) {
+        return Some(e.1);
+    }
+    let e: &'static Mutex<Enumerator> = Box::leak(Box::new(Mutex::new(Enumerator::new(x.alpha, depth).with_prefix(x.prefix))));
+    reg.push((key, e));
+    Some(e)
+}
+
+fn broken_from_env() -> Broken {
+    // sensitivity experiments only: BV_C09_BREAK=eph|weak deliberately breaks the MODEL
+    match std::env::var("BV_C09_BREAK").as_deref() {
+        Ok("eph") => Broken { ignore_eph_values: true, weak_is_strong: false },
+        Ok("weak") => Broken { ignore_eph_values: false, weak_is_strong: true },
+        _ => Broken::default(),
+    }
+}
 
 impl Prop for C09 {
     fn id(&self) -> &'static str {
         "C09"
     }
-    fn streams(&self, _tier: Tier) -> Vec<Stream> {
-        vec![]
+    fn streams(&self, tier: Tier) -> Vec<Stream> {
+        let mut v = vec![];
+        for x in EXH {
+            let total = enumerator(x.name, tier).and_then(|e| e.lock().ok().map(|mut e| e.total())).unwrap_or(0);
+            if std::env::var_os("BV_C09_DEBUG").is_some() {
+                eprintln!("C09 {}: {total} histories", x.name);
+                if let Ok(maxd) = std::env::var("BV_C09_DEBUG").unwrap_or_default().parse::<u8>() {
+                    for d in 1..=maxd {
+                        let t0 = std::time::Instant::now();
+                        let mut e = Enumerator::new(x.alpha, d).with_prefix(x.prefix);
+                        let n = e.total();
+                        eprintln!("  depth {d}: {n} histories, memo {} entries, {:?}", e.memo_len(), t0.elapsed());
+                    }
+                }
+            }
+            v.push(Stream::new(x.name, total, 8).batch(2000).exhaustive());
+        }
+        if tier == Tier::Quick {
+            v.push(Stream::new("random", 24_000, 1600).batch(200));
+        } else {
+            v.push(Stream::new("random", 400_000, 1600).batch(200));
+            v.push(Stream::new("random-long", 12_000, 20_000).batch(20));
+        }
+        v
     }
     fn rule(&self) -> String {
-        "stub".into()
+        "histories of boa_gc API operations (alloc, clone/drop handle, link/unlink/self-link, load an edge into a root, WeakGc new/clone/upgrade/drop held by the host or by a node, Ephemeron(key, value handle) new/value/drop, WeakMap new/insert/remove/get/drop held by the host or by a node, arm a node to resurrect itself in its finalizer, force_collect) run in lock step on a graph-reachability model (roots, strong edges, ephemeron fix-point, weak references cleared when the target becomes finalizable) and on a fresh thread-local heap; after every op the observation and verif::stats() (strong/ephemeron/weak-map boxes, bytes, collections, allocations) must agree, after every collect per-id finalize/drop counters, canaries, every edge list, every upgrade/value/get must agree, and after dropping all handles the heap must be empty. Streams exhaustive-*: every history of at most L applicable operations over 3 nodes (full alphabet L=5/6, strong+weak+resurrection alphabet L=6/7, ephemeron+weak-map alphabet L=5/6; quick/thorough), pre-order index = case index, each followed by a final collect; random: tape-driven histories (<= 40 nodes, ~400 ops; thorough random-long: <= 200 nodes, <= 5000 ops). non-trivial = some collect of the history frees >= 1 node while >= 1 node survives that has no root handle, and at that collect at least one of: a strong cycle exists, an ephemeron's key is reachable only from its value, a live weak map has an entry, a finalizer resurrects a node; distinct = distinct op list".into()
     }
-    fn run_case(&self, _env: &mut Env, _stream: &str, _index: u64, _tape: &[u8]) -> CaseOut {
-        CaseOut::skip(String::new(), "stub")
+    fn assumptions(&self) -> Vec<String> {
+        vec![
+            "weak references and ephemerons whose key becomes finalizable are cleared by that collect even if a finalizer resurrects the key (conventional cleared-before-finalization semantics; this is what boa_gc does)".into(),
+            "a finalizer-resurrected node that holds handles is excluded from generated histories (finding C09-a)".into(),
+            "the default allocation threshold (1 MiB) is never reached, so collections happen only at force_collect (checked through stats().collections)".into(),
+        ]
+    }
+    fn run_case(&self, env: &mut Env, stream: &str, index: u64, tape: &[u8]) -> CaseOut {
+        let mut g = Gen::new();
+        if let Some(e) = enumerator(stream, env.tier) {
+            let ops = match e.lock() {
+                Ok(mut e) => e.unrank(index),
+                Err(_) => return CaseOut::skip(String::new(), "enumerator poisoned"),
+            };
+            for op in ops {
+                g.push(op);
+            }
+            g.push(Op::Collect);
+        } else {
+            let cfg = if stream == "random-long" { RandCfg { max_ops: 5000, node_caps: &[12, 40, 200, 200] } } else { RandCfg { max_ops: 400, node_caps: &[3, 6, 12, 40] } };
+            g = gcgen::random(tape, &cfg);
+        }
+        let rendered = gcops::render(&g.ops);
+        let o = run_history(&g.ops, broken_from_env(), false);
+        outcome_to_case(rendered, o, g.excluded)
+    }
+    fn run_rendered(&self, _env: &mut Env, _stream: &str, rendered: &str) -> Option<CaseOut> {
+        let ops = match gcops::parse(rendered) {
+            Ok(o) => o,
+            Err(line) => return Some(CaseOut::skip(rendered.to_string(), format!("unparsable line: {line}"))),
+        };
+        let o = run_history(&ops, broken_from_env(), true);
+        Some(outcome_to_case(rendered.to_string(), o, 0))
+    }
+    fn rendered_prefix_lines(&self, _rendered: &str) -> usize {
+        0
     }
 }
